@@ -634,15 +634,11 @@ class ISO8601Sequence(SequenceBase):
                  self.recurrence.min_point is not None) and
                 (self.recurrence.end_point is not None or
                  self.recurrence.max_point is not None))):
-            curr = None
-            prev = None
-            for recurrence_iso_point in self.recurrence:
-                prev = curr
-                curr = recurrence_iso_point
-            ret = ISO8601Point(str(curr))
-            if self.exclusions and ret in self.exclusions:
-                return ISO8601Point(str(prev))
-            return ret
+            # Step back from the end over any number of excluded points.
+            for recurrence_iso_point in reversed(list(self.recurrence)):
+                ret = ISO8601Point(str(recurrence_iso_point))
+                if not self.exclusions or ret not in self.exclusions:
+                    return ret
         return None
 
     def __eq__(self, other):
